@@ -151,6 +151,17 @@ def run(repo, chk):
     from .shared import meta_tag_agreement_obligations
     meta_tag_agreement_obligations(repo, chk, "R06.1", H)
     # ------------------------------------------------------------------ R06.2
+    # the analysis models SimpleVariableCollector(target).vars as "the names of the target": each name once, whatever the target repeats (`for _, v, _ in ..`)
+    svc = repo.cls("transform.SimpleVariableCollector")
+    inits = [n for m in svc.body if isinstance(m, ast.FunctionDef) and m.name == "__init__" for n in ast.walk(m)
+             if isinstance(n, ast.Assign) and any(norm(t) == "self.vars" for t in n.targets)]
+    is_set = len(inits) == 1 and (isinstance(inits[0].value, ast.Call) and norm(inits[0].value.func) == "set" or isinstance(inits[0].value, (ast.Set, ast.SetComp)))
+    muts = [norm(n.func) for m in svc.body if isinstance(m, ast.FunctionDef) for n in ast.walk(m) if isinstance(n, ast.Call) and isinstance(n.func, ast.Attribute)
+            and norm(n.func.value) == "self.vars"]
+    chk.ob("R06.2", "transform.SimpleVariableCollector:each-loop-variable-once", is_set and bool(muts) and all(m_.endswith((".add", ".update")) for m_ in muts),
+           f"ptera/transform.py:{svc.lineno}",
+           f"the names of a loop target are collected in a set (`{norm(inits[0]) if inits else 'no assignment to self.vars'}`, filled by {sorted(set(muts))}): a target that binds one name twice "
+           "(`for _, v, _ in rows`) still gets one #loop / #endloop pair per iteration")
     for p in H.get("visit_For", []):
         T = p.template
         if isinstance(T, Raise):
